@@ -331,3 +331,13 @@ def run(ctx, chk):
         else:
             chk.ob("W-reject", "derive " + nm, r == "ok", "malformed declaration (%s) is accepted by the derive" % nm, kind="malformed-accepted", sample={"case": nm})
     chk.floor("compile_fail witnesses", len([1 for fn, *_ in names if fn in res]), len(names))
+    # translation validation: programs = enum declarations compiled with the real derive (in-tree + generated, per profile),
+    # disagreements_checked = table points compared between the declaration and the derived impl's MIR
+    chk.level = "translation_validation"
+    nprog = n + (n2 if ctx.tier == "thorough" else 0) + sum(1 for cfg in ctx.configs() for c in cfg.codecs if c.derived)
+    chk.extra_cov = {"programs": nprog, "disagreements_checked": chk.obligations,
+                     "checker_cmd": "python3 bin/check C17 --tier " + ctx.tier}
+    if not chk.samples:
+        chk.samples.append({"declaration": render(fam[0])})
+    else:
+        chk.samples.insert(0, {"declaration": render(fam[15]), "note": "one of the generated witness declarations"})
